@@ -89,7 +89,61 @@ def rand_dda(r):
         return None
     if r.random() < 0.15:
         return {p: {s: 0 for s in Suit} for p in Player}          # an all-zero table is a table
-    return {p: {s: r.randrange(0, 14) for s in Suit} for p in Player}
+    t = {p: {s: r.randrange(0, 14) for s in Suit} for p in Player}
+    u = r.random()
+    if u < 0.3:
+        # partners take the same number of tricks in a strain more often than not:
+        # equal rows for the two members of a side
+        t[Player.S] = dict(t[Player.N])
+        if r.random() < 0.6:
+            t[Player.W] = dict(t[Player.E])
+    if r.random() < 0.4:
+        # a table is a mapping: it may have been filled in any order (starting at the
+        # dealer, side by side ...) and its rows in any order of the strains
+        order = list(Player)
+        r.shuffle(order)
+        so = list(Suit)
+        r.shuffle(so)
+        t = {p: {s_: t[p][s_] for s_ in so} for p in order}
+    return t
+
+
+class PipeText:
+    """A text stream that can only be read forward (a pipe, standard input, a
+    socket file): read / readline / iteration, no seek, no tell."""
+
+    def __init__(self, text: str):
+        self._s = io.StringIO(text)
+
+    def read(self, n=-1):
+        return self._s.read(n)
+
+    def readline(self, *a):
+        return self._s.readline(*a)
+
+    def __iter__(self):
+        return iter(self._s)
+
+    def seekable(self):
+        return False
+
+    def readable(self):
+        return True
+
+    def seek(self, *a):
+        raise io.UnsupportedOperation('underlying stream is not seekable')
+
+    def tell(self):
+        raise io.UnsupportedOperation('underlying stream is not seekable')
+
+    def close(self):
+        pass
+
+    def __enter__(self):
+        return self
+
+    def __exit__(self, *a):
+        return False
 
 
 def proj_dda(dda) -> Dict[str, Any]:
@@ -515,15 +569,18 @@ def session(job) -> List[Dict[str, Any]]:
     if kind == 'logs':
         e = {'tid': tid, 'ev': 'read', 'recs': [], 'raised': False}
         try:
-            e['recs'] = [proj_log(b) for b in JsonParser().parse_board_logs(io.StringIO(text))]
+            # (every other document arrives through a stream that can only be read forward)
+            src = PipeText(text) if sum(map(ord, str(tid))) % 2 else io.StringIO(text)
+            e['recs'] = [proj_log(b) for b in JsonParser().parse_board_logs(src)]
         except Exception as ex:  # noqa
             e['raised'] = True
             e['msg'] = f'{type(ex).__name__}: {ex}'[:120]
         evs.append(e)
     e = {'tid': tid, 'ev': 'read_settings', 'recs': [], 'raised': False}
     try:
+        src2 = PipeText(text) if sum(map(ord, str(tid))) % 3 == 0 else io.StringIO(text)
         e['recs'] = [proj_setting(b) for b in
-                     JsonParser().parse_board_settings(io.StringIO(text))]
+                     JsonParser().parse_board_settings(src2)]
     except Exception as ex:  # noqa
         e['raised'] = True
         e['msg'] = f'{type(ex).__name__}: {ex}'[:120]
